@@ -8,7 +8,7 @@ CONSTANTS Comp = "multi"
   InitAt <- AtTri
   MovePorts <- Mv_none
   Dsts <- D_H3B
-  Shapes <- Sh_ab
+  Shapes <- Sh_a
   NBuf = 2
   Gaps <- G_6_11
   Strict = TRUE
